@@ -76,6 +76,9 @@ def check(run: Run) -> None:
     _r06_4(run, res)
     _r06_5(run, res)
     _r06_6(run, res)
+    from .c04 import check_untyped_caches
+
+    check_untyped_caches(run, "R06.7")
 
 
 # ------------------------------------------------------------------ R06.1
